@@ -145,6 +145,78 @@ def _quantifier_conds(c: Term, ev=None):
     return [("forall-not", first[1], first[2], tuple(seq[1:]))]
 
 
+def _items_gen(pat: Term, it: Term):
+    """`for k, v in d.items()` reads d[k] for every key k of d: (k, d, {v: d[k]}) or None."""
+    if it[0] == "meth" and it[2] == "items" and not it[3] and not it[4] and pat[0] == "tuplelit" and len(pat[1]) == 2 \
+            and pat[1][0][0] == "var" and pat[1][1][0] == "var":
+        k, v = pat[1]
+        return k, it[1], {v: ("index", it[1], k)}
+    return None
+
+
+def _keys(it: Term) -> Term:
+    """iterating d.keys() is iterating d"""
+    if it[0] == "meth" and it[2] == "keys" and not it[3] and not it[4]:
+        return it[1]
+    return it
+
+
+def _norm_items_term(t: Any) -> Any:
+    def f(s_: Term):
+        if s_[0] == "comp" and len(s_) > 3:
+            gens = [(g[0], _keys(g[1]), g[2]) for g in s_[3]]
+            elt = s_[2]
+            ch = tuple(gens) != tuple(s_[3])
+            for i, (pat, it, conds) in enumerate(gens):
+                r = _items_gen(pat, it)
+                if r is None:
+                    continue
+                k, src, m = r
+                gens[i] = (k, src, subst(conds, m))
+                for j in range(i + 1, len(gens)):
+                    gens[j] = (gens[j][0], subst(gens[j][1], m), subst(gens[j][2], m))
+                elt = subst(elt, m)
+                ch = True
+            if ch:
+                return ("comp", s_[1], elt, tuple(gens))
+        if s_[0] == "forall-not":
+            r = _items_gen(s_[1], s_[2])
+            if r is not None:
+                k, src, m = r
+                return ("forall-not", k, src, subst(s_[3], m))
+            if _keys(s_[2]) != s_[2]:
+                return ("forall-not", s_[1], _keys(s_[2]), s_[3])
+        if s_[0] == "iter-elem" and _keys(s_[2]) != s_[2]:
+            return ("iter-elem", s_[1], _keys(s_[2]))
+        return None
+    return mapterm(t, f)
+
+
+def normalise_items(paths: list) -> list:
+    """Iteration over d.items() is iteration over the keys with the value read as d[k] (so both spellings of a loop agree)."""
+    from dataclasses import replace
+
+    out = []
+    for p in paths:
+        m: dict = {}
+        conds = []
+        for c in p.conds:
+            c = subst(_norm_items_term(c), m)
+            if c[0] == "iter-elem":
+                r = _items_gen(c[1], c[2])
+                if r is not None:
+                    k, src, m2 = r
+                    m.update(m2)
+                    c = ("iter-elem", k, src)
+            conds.append(c)
+        v = p.value
+        if p.kind == "return":
+            v = subst(_norm_items_term(v), m)
+        q = replace(p, conds=tuple(conds), value=v)
+        out.append(q)
+    return out
+
+
 def expand_quantifiers(paths: list, ev=None) -> list:
     from dataclasses import replace
 
@@ -153,6 +225,22 @@ def expand_quantifiers(paths: list, ev=None) -> list:
         conds: list = []
         changed = False
         for c in p.conds:
+            if c[0] == "forall-not":
+                # ¬∃p (A ∧ ∃x C(x))  =  ¬∃p ∃x (A ∧ C(x)): an any(...) inside the body of a search loop is one more (nested) search
+                body: list = []
+                ch = False
+                for k in c[3]:
+                    rk = _quantifier_conds(k, ev)
+                    if rk is not None and rk and rk[0][0] == "iter-elem":
+                        body.extend(rk)
+                        ch = True
+                    else:
+                        body.append(k)
+                if ch:
+                    conds.append(c)  # both readings are kept: the atom form meets atoms, the nested form meets witnesses
+                    conds.append(("forall-not", c[1], c[2], tuple(body)))
+                    changed = True
+                    continue
             r = _quantifier_conds(c, ev)
             if r is None:
                 conds.append(c)
@@ -321,6 +409,7 @@ def compare_with_reference(model: Model, impl_q: str, ref_q: str, types: dict[st
         from .symeval import bool_paths
         pi, pr = bool_paths(pi), bool_paths(pr)
     from .symeval import resolve_ites
+    pi, pr = normalise_items(pi), normalise_items(pr)
     pi, pr = resolve_ites(pi), resolve_ites(pr)
     pi, pr = expand_quantifiers(pi, ev_i), expand_quantifiers(pr, ev_r)
     if infeasible is not None:
